@@ -103,6 +103,13 @@ Definition odf_member (href : str) : str := resolve_part [] href.
 (* ZipContext.exists(p) / read_bytes(p): `p in set(zip.namelist())`, `zip.read(p)` — exact member name *)
 Definition member_of (names : list str) (p : str) : option str := if mem_str p names then Some p else None.
 
+(* pdf_extractor._extract_image: the filter that names the image format is the LAST stage of the /Filter chain
+   (`filter_type[-1]`, "" for an empty array); earlier stages (Flate, ASCIIHex, ASCII85, RunLength, LZW) are
+   transport encodings that pypdf removes.  content type = FILTER_TO_CONTENT_TYPE.get(filter, "image/unknown") *)
+Definition pdf_codec (chain : list str) : str := last chain [].
+Definition pdf_content_type (tbl : list (str * str)) (chain : list str) : str :=
+  match assoc (pdf_codec chain) tbl with Some v => v | None => s "image/unknown" end.
+
 (* ------------------------------------------------------------------ 2. sniffers (bytes = list Z) *)
 Open Scope Z_scope.
 
